@@ -198,6 +198,94 @@ def cmdCat : List String → String
     | none => "bad-op"
   | _ => "bad-op"
 
+/-! Batch commands: one evaluation of the compile-time part (`planConvert`), many values. -/
+
+def roundWithPlan (fn : RFn) (p : ConvPlan) (x : Val) : Res FVal :=
+  (p.run x).bind fun v => match v with
+    | .f y => .ok (fn.apply y)
+    | .i _ => .nocompile "ill-typed"
+
+def cmdRoundPts : List String → String
+  | rs :: os :: ms :: xs =>
+    match ArithTy.ofName? rs, parseMag? ms with
+    | some R, some m =>
+      let outTy : Option (Option ArithTy) := if os = "-" then some none else (ArithTy.ofName? os).map some
+      match outTy, allSome (xs.map (parseVal? R)) with
+      | some O, some vals =>
+        let p := planConvert R (.flt (roundingRep R)) m
+        let one (x : Val) : String :=
+          let arg : Res FVal := (p.run x).bind fun v => match v with
+            | .f y => .ok y
+            | .i _ => .nocompile "ill-typed"
+          let base := [resStr fvalStr arg] ++ [RFn.round, RFn.floor, RFn.ceil].map (fun fn => resStr fvalStr (roundWithPlan fn p x))
+          let outs := match O with
+            | none => []
+            | some o => [RFn.round, RFn.floor, RFn.ceil].map (fun fn =>
+                resStr valStr ((roundWithPlan fn p x).bind fun r => staticCast (.f r) o))
+          ",".intercalate (base ++ outs)
+        s!"rr={(roundingRep R).name} cat={catStr (categorizeMag m)} " ++ " ".intercalate (vals.map one)
+      | _, _ => "bad-op"
+    | _, _ => "bad-op"
+  | _ => "bad-op"
+
+def cmdConvPts : List String → String
+  | rs :: ns :: ms :: xs =>
+    match ArithTy.ofName? rs, ArithTy.ofName? ns, parseMag? ms with
+    | some R, some N, some m =>
+      match allSome (xs.map (parseVal? R)) with
+      | some vals =>
+        let p := planConvert R N m
+        " ".intercalate (vals.map fun x => resStr valStr (p.run x))
+      | none => "bad-op"
+    | _, _, _ => "bad-op"
+  | _ => "bad-op"
+
+def hashP : Nat := 2305843009213693951
+
+def codeOf : Res FVal → Nat
+  | .ok (.fin q) => if q.den = 1 then (q.num % (hashP : Int)).toNat else 5555555
+  | .ok .nan => 1111111
+  | .ok (.inf false) => 2222222
+  | .ok (.inf true) => 3333333
+  | _ => 4444444
+
+/-- Weighted checksum of `fn` over all integers of `[lo, hi]`. -/
+def sweepHash (fn : RFn) (p : ConvPlan) (lo : Int) (n : Nat) : Nat := Id.run do
+  let mut h : Nat := 0
+  for k in [0:n] do
+    let x : Int := lo + k
+    h := (h + codeOf (roundWithPlan fn p (.i x)) * ((k + 1) % hashP)) % hashP
+  return h
+
+def cmdRoundSweep : List String → String
+  | [rs, ms, los, his] =>
+    match ArithTy.ofName? rs, parseMag? ms, parseInt? los, parseInt? his with
+    | some (.int t), some m, some lo, some hi =>
+      if !(decide (t.inRange lo) && decide (t.inRange hi) && decide (lo ≤ hi)) then "bad-op" else
+      let p := planConvert (.int t) (.flt (roundingRep (.int t))) m
+      let n := (hi - lo + 1).toNat
+      s!"n={n} hr={sweepHash .round p lo n} hf={sweepHash .floor p lo n} hc={sweepHash .ceil p lo n}"
+    | _, _, _, _ => "bad-op"
+  | _ => "bad-op"
+
+def cmdInvPts : List String → String
+  | ts :: rs :: ks :: xs =>
+    match ArithTy.ofName? rs, parseMag? ks with
+    | some R, some K =>
+      match allSome (xs.map (parseVal? R)) with
+      | some vals =>
+        if ts = "-" then
+          s!"compiles={b01 (inverseImplicitCompiles R K)} " ++
+            " ".intercalate (vals.map fun x => resStr valStr (inverseInImplicit R K x))
+        else match ArithTy.ofName? ts with
+          | some T =>
+            let c := match unityIn (T.common R) K with | .ok _ => true | _ => false
+            s!"compiles={b01 c} " ++ " ".intercalate (vals.map fun x => resStr valStr (inverseIn T R K x))
+          | none => "bad-op"
+      | none => "bad-op"
+    | _, _ => "bad-op"
+  | _ => "bad-op"
+
 end C15Drv
 
 def dispatchC15 : List String → Option String
@@ -212,6 +300,10 @@ def dispatchC15 : List String → Option String
   | "c15.tworep" :: args => some (C15Drv.cmdTwoRep args)
   | "c15.resunit" :: args => some (C15Drv.cmdResUnit args)
   | "c15.cat" :: args => some (C15Drv.cmdCat args)
+  | "c15.roundpts" :: args => some (C15Drv.cmdRoundPts args)
+  | "c15.convpts" :: args => some (C15Drv.cmdConvPts args)
+  | "c15.roundsweep" :: args => some (C15Drv.cmdRoundSweep args)
+  | "c15.invpts" :: args => some (C15Drv.cmdInvPts args)
   | _ => none
 
 /-! Driver commands for C15 (AuModel.MathFn). -/
